@@ -256,6 +256,11 @@ func genRunLevel(r *hx.RNG) runLevelCase {
 	c.Port = uint16(r.Range(1, 65535))
 	c.Min = r.Range(1, 3)
 	c.Max = c.Min + r.Range(1, 12)
+	if r.Chance(1, 25) {
+		// the run ends at TTL 255, the last value an 8-bit TTL can take
+		c.Max = 255
+		c.Min = r.Range(244, 253)
+	}
 	c.DestHop = r.Range(c.Min, c.Max+2)
 	for k := r.Intn(3); k > 0; k-- {
 		s := r.Range(c.Min, c.Max)
